@@ -1,14 +1,19 @@
 #!/usr/bin/env python3
 """C01 - loading and rendering a template never crashes the host process (DESIGN.md §3 C01; PARTIAL).
 
-(a) Coq: parser recursion is bounded (call graph regenerated from parser.rs on every run and checked by
-    a verified checker), slices never panic (C09 model), accepted instruction streams never underflow
-    (C05 checker).
+(a) Coq: parser recursion is bounded and every loop of the parser that nests what it parsed one level deeper
+    per iteration is charged against the nesting limit (call graph + loop table regenerated from parser.rs on
+    every run and checked by verified checkers), the nesting counters bound the height of every accepted
+    expression (model of the accounting), the fixed `range` length arithmetic never leaves i128, slices never
+    panic (C09 model), accepted instruction streams never underflow (C05 checker).
 (b) crash monitor (exploration, not proof): boundary sweep of every built-in filter / test / function /
-    operator, nesting generators around and far beyond the recursion limits, mutated fixtures; every
-    request runs in a child process on a 2 MiB thread, debug and release; every returned error is
-    formatted with {}, {:#}, {:?} and display_debug_info()."""
-import os, sys, collections, glob, re
+    operator, nesting generators around and far beyond the recursion and nesting limits, mutated fixtures;
+    every request runs in a child process (harness bin `prog`) on a 2 MiB thread, debug and release; every
+    returned error is formatted with {}, {:#}, {:?} and display_debug_info().  The request list is sharded
+    over parallel child processes; a crash costs one restart, a hang the 20 s watchdog of one shard.
+(c) stack meter (harness bin `c01`): bytes of native stack used by parse / code generation / AST drop /
+    render at the limits, debug and release (evidence: how far the accepted nesting is from 2 MiB)."""
+import os, sys, collections, glob, re, concurrent.futures
 sys.path.insert(0, os.path.dirname(os.path.dirname(os.path.abspath(__file__))))
 from vlib import *
 import parser_graph
@@ -23,11 +28,13 @@ X4 = ["'abc'", "[1,2,3]", "7", "u"]
 X8 = X4 + ["{'a':1,'b':2}", "1.5", "none", "range(3)"]
 R10 = ["0", "-1", "2", "'a'", "[]", "none", "true", "4611686018427387904", "9223372036854775807", "340282366920938463463374607431768211455"]
 OPS = ["+", "-", "*", "/", "//", "%", "**", "~", "<", "==", "in", "and", "or"]
+CTX = {"x": {"a": [1, 2]}, "a": False, "l": [1], "m": "s"}
+WATCHDOG_MS = 20000
+STACK_BUDGET = 2 * 1024 * 1024
 
 
 def builtin_names(repo):
     src = open(os.path.join(repo, "minijinja/src/defaults.rs")).read()
-    names = re.findall(r'rv\.insert\(\s*"([A-Za-z_]+)"', src)
     fsrc = src.split("fn get_builtin_tests")[0] if "fn get_builtin_tests" in src else src
     filters = sorted(set(re.findall(r'rv\.insert\(\s*"([A-Za-z_]+)"', fsrc)))
     tsrc = src.split("fn get_builtin_tests")[1].split("fn get_globals")[0] if "fn get_builtin_tests" in src else ""
@@ -36,6 +43,17 @@ def builtin_names(repo):
     funcs = sorted(set(re.findall(r'rv\.insert\(\s*"([A-Za-z_]+)"', gsrc)))
     contrib = ["pluralize", "filesizeformat", "truncate", "wordcount", "wordwrap", "striptags", "random", "datetimeformat"]
     return filters + contrib, tests, sorted(set(funcs + ["range", "dict", "namespace", "cycler", "joiner", "debug", "lipsum", "randrange"]))
+
+
+DEEP_DATA = [
+    "{% set ns = namespace(x=[]) %}{% for i in range(100000) %}{% set ns.x = [ns.x] %}{% endfor %}{{ ns.x|length }}",
+    "{% set ns = namespace(x=[]) %}{% for i in range(100000) %}{% set ns.x = [ns.x] %}{% endfor %}{{ ns.x }}",
+    "{% set ns = namespace(x={}) %}{% for i in range(100000) %}{% set ns.x = {'a': ns.x} %}{% endfor %}{{ ns.x|tojson|length }}",
+    "{% set ns = namespace(x='') %}{% for i in range(100000) %}{% set ns.x = ns.x ~ 'a' %}{% endfor %}{{ ns.x|length }}",
+    "{% set ns = namespace(x=[]) %}{% for i in range(3000) %}{% set ns.x = [ns.x] %}{% endfor %}{{ ns.x == ns.x }}{{ ns.x < ns.x }}{{ [ns.x]|sort|length }}{{ {ns.x: 1}|length }}",
+    "{% set ns = namespace(x=[]) %}{% for i in range(3000) %}{% set ns.x = ns.x + [i] %}{% endfor %}{{ ns.x|length }}",
+    "{% set ns = namespace(x=[]) %}{% for i in range(2000) %}{% set ns.x = [ns.x] %}{% endfor %}{{ ns.x|tojson|length }}{{ ns.x|string|length }}",
+]
 
 
 def sweep_templates(repo, rng, thorough):
@@ -88,48 +106,94 @@ def sweep_templates(repo, rng, thorough):
         out.append("{%% import %s as m %%}{{ m }}" % a)
         out.append("{{ '%%s %%d'|format(%s, %s) }}" % (a, a))
         out.append("{{ '{:>' ~ %s ~ '}'|format(1) }}" % a)
+        out.append("{{ (%s, %s)|min }}{{ [%s, u]|max }}{{ [%s, [%s]]|sort }}" % (a, a, a, a, a))
+        out.append("{{ 2|chain(%s)|min }}{{ 2|chain(%s)|sort }}{{ u|chain(%s)|unique|list }}" % (a, a, a))
     out += ["{% for i in [1,2] %}{{ loop.cycle() }}{% endfor %}", "{{ loop }}", "{{ super() }}", "{{ caller() }}", "{{ self.x() }}",
             "{% for i in [1] %}{{ loop(1) }}{% endfor %}", "{% for i in [[1]] recursive %}{{ loop(2) }}{% endfor %}",
-            "{% set ns = namespace(x=[]) %}{% for i in range(100000) %}{% set ns.x = [ns.x] %}{% endfor %}{{ ns.x|length }}",
-            "{% set ns = namespace(x=[]) %}{% for i in range(100000) %}{% set ns.x = [ns.x] %}{% endfor %}{{ ns.x }}",
-            "{% set ns = namespace(x={}) %}{% for i in range(100000) %}{% set ns.x = {'a': ns.x} %}{% endfor %}{{ ns.x|tojson|length }}",
-            "{% set ns = namespace(x=[]) %}{% for i in range(100000) %}{% set ns.x = ns.x + [i] %}{% endfor %}{{ ns.x|length }}",
-            "{% set ns = namespace(x='') %}{% for i in range(100000) %}{% set ns.x = ns.x ~ 'a' %}{% endfor %}{{ ns.x|length }}",
-            "{% set ns = namespace(x=[]) %}{% for i in range(3000) %}{% set ns.x = [ns.x] %}{% endfor %}{{ ns.x == ns.x }}{{ ns.x < ns.x }}{{ [ns.x]|sort|length }}{{ {ns.x: 1}|length }}"]
+            "{{ 2|chain(2)|min }}", "{{ 2|chain(2)|max }}", "{{ 2|chain(2)|sort }}", "{{ 2|chain(2)|unique|list }}", "{{ 2|chain(2)|list|dictsort }}",
+            "{{ 2|chain(2)|groupby('a') }}", "{{ [2|chain(2)|first, 2|chain(2)|first] == [1, 2] }}", "{{ 2|chain(2)|first < 2|chain(2)|first }}",
+            "{{ () * 9223372036854775807 }}", "{{ [] * 9223372036854775807 }}", "{{ ((1,2) * 4000000)|length }}", "{{ ([1,2] * 4000000)|length }}",
+            "{{ range(5, -9223372036854775807, -4611686018427387904)|list }}", "{{ range(9223372036854775807, -9223372036854775808, -9223372036854775808)|list }}",
+            "{{ range(-9223372036854775808, 9223372036854775807, 9223372036854775807)|list }}", "{{ range(9223372036854775807, -1, -1) }}",
+            "{{ 'a\nb\nc'|indent(33333334) |length }}", "{{ 'a\nb\nc'|indent(33333333)|length }}", "{{ [[1]]|tojson(1024)|length }}", "{{ [[1]]|tojson(1025)|length }}"]
+    out += DEEP_DATA
     return out
 
 
+CHAINS = [
+    ("filter", lambda n: "{{ 1" + "|abs" * n + " }}"), ("attr", lambda n: "{{ x" + ".a" * n + " }}"), ("item", lambda n: "{{ x" + "[0]" * n + " }}"),
+    ("dotint", lambda n: "{{ x" + ".0" * n + " }}"), ("slice", lambda n: "{{ m" + "[0:1]" * n + " }}"), ("callchain", lambda n: "{{ f" + "()" * n + " }}"),
+    ("method", lambda n: "{{ x" + ".a(1)" * n + " }}"), ("filterarg", lambda n: "{{ x" + "|default(1)" * n + " }}"),
+    ("add", lambda n: "{{ 1" + " + 1" * n + " }}"), ("addvar", lambda n: "{{ a" + " + 1" * n + " }}"), ("sub", lambda n: "{{ a" + " - 1" * n + " }}"),
+    ("mul", lambda n: "{{ a" + " * 1" * n + " }}"), ("floordiv", lambda n: "{{ a" + " // 1" * n + " }}"), ("pow", lambda n: "{{ a" + " ** 1" * n + " }}"),
+    ("concat", lambda n: "{{ 'a'" + " ~ 'b'" * n + " }}"), ("concatvar", lambda n: "{{ m" + " ~ m" * n + " }}"),
+    ("and", lambda n: "{{ 1" + " and 1" * n + " }}"), ("or", lambda n: "{{ a" + " or a" * n + " }}"),
+    ("test", lambda n: "{{ x" + " is defined" * n + " }}"), ("nottest", lambda n: "{{ x" + " is not defined" * n + " }}"),
+    ("testarg", lambda n: "{{ 1" + " is eq 1" * n + " }}"), ("isand", lambda n: "{{ x is " + "defined and x is " * n + "defined }}"),
+    ("ifnoelse", lambda n: "{{ 1" + " if a" * n + " }}"), ("compare", lambda n: "{{ 1" + " < 2" * n + " }}"),
+    ("setattr", lambda n: "{% set ns = namespace() %}{% set ns" + ".a" * n + " = 1 %}"), ("settarget", lambda n: "{% set x" + ".a" * n + " = 1 %}"),
+    ("filterblock", lambda n: "{% filter " + "|".join(["upper"] * max(n, 1)) + " %}x{% endfilter %}"),
+    ("setblockfilter", lambda n: "{% set z | " + "|".join(["upper"] * max(n, 1)) + " %}x{% endset %}{{ z }}"),
+    ("notin", lambda n: "{{ " + "(" * min(n, 70) + "1" + " not in l)" * min(n, 70) + " }}"),
+    ("forfilter", lambda n: "{% for i in l" + "|list" * n + " %}{{ i }}{% endfor %}"), ("ifcond", lambda n: "{% if a" + " or a" * n + " %}x{% endif %}"),
+]
+NESTS = [
+    ("paren", lambda n: "{{ " + "(" * n + "1" + ")" * n + " }}"), ("list", lambda n: "{{ " + "[" * n + "1" + "]" * n + " }}"),
+    ("neg", lambda n: "{{ " + "-" * n + "1 }}"), ("not", lambda n: "{{ " + "not " * n + "1 }}"),
+    ("ifelse", lambda n: "{{ " + "1 if a else " * n + "2 }}"), ("addparen", lambda n: "{{ " + "1 + (" * n + "1" + ")" * n + " }}"),
+    ("call", lambda n: "{{ " + "f(" * n + "1" + ")" * n + " }}"), ("kwarg", lambda n: "{{ " + "f(k=" * n + "1" + ")" * n + " }}"),
+    ("splat", lambda n: "{{ " + "f(*" * n + "l" + ")" * n + " }}"), ("subscript", lambda n: "{{ " + "x[" * n + "0" + "]" * n + " }}"),
+    ("slicearg", lambda n: "{{ " + "m[:" * n + "1" + "]" * n + " }}"), ("dict", lambda n: "{{ " + "{'a':" * n + "1" + "}" * n + " }}"),
+    ("dictkey", lambda n: "{{ " + "{" * n + "1" + ":1}" * n + " }}"), ("filterarg", lambda n: "{{ x" + "|default(x" * n + ")" * n + " }}"),
+    ("testarg", lambda n: "{{ " + "1 is eq(" * n + "1" + ")" * n + " }}"), ("testbare", lambda n: "{{ 1" + " is eq -" * n + "1 }}"),
+    ("tuple", lambda n: "{{ " + "(" * n + "1" + ",)" * n + " }}"),
+    ("if", lambda n: "{% if a %}" * n + "x" + "{% endif %}" * n), ("elif", lambda n: "{% if a %}x" + "{% elif a %}y" * n + "{% endif %}"),
+    ("else", lambda n: "{% if a %}x{% else %}" * n + "y" + "{% endif %}" * n),
+    ("for", lambda n: "{% for i in l %}" * n + "x" + "{% endfor %}" * n), ("forelse", lambda n: "{% for i in [] %}{% else %}" * n + "x" + "{% endfor %}" * n),
+    ("with", lambda n: "{% with q=1 %}" * n + "x" + "{% endwith %}" * n), ("filterblock", lambda n: "{% filter upper %}" * n + "x" + "{% endfilter %}" * n),
+    ("setblock", lambda n: "{% set z %}" * n + "x" + "{% endset %}" * n), ("autoescape", lambda n: "{% autoescape true %}" * n + "x" + "{% endautoescape %}" * n),
+    ("unpack", lambda n: "{% for " + "(" * n + "a" + ",)" * n + " in l %}{% endfor %}"),
+    ("macro", lambda n: "{% macro m() %}" * min(n, 150) + "x" + "{% endmacro %}" * min(n, 150)),
+    ("callblock", lambda n: "{% call m() %}" * n + "x" + "{% endcall %}" * n),
+    ("block", lambda n: "{% block b %}" + "{% if a %}" * n + "{% endif %}" * n + "{% endblock %}"),
+    ("raw", lambda n: "{% raw %}" + "{{" * n + "{% endraw %}"), ("comment", lambda n: "{#" + "{#" * n + "#}"), ("openvar", lambda n: "{{" * n), ("openblock", lambda n: "{%" * n),
+    ("escapes", lambda n: "{{ '" + "\\\\" * n + "' }}"), ("commas", lambda n: "{{ " + "1," * n + " }}"), ("items", lambda n: "{{ [" + "x.a," * n + "] |length }}"),
+    ("manyexprs", lambda n: "{{ x.a }}" * n), ("strings", lambda n: "{{ " + "'a' " * n + " }}"),
+]
+
+
 def nesting_templates(thorough):
-    depths = [10, 100, 149, 150, 151, 200, 1000, 20000] + ([100000] if thorough else [])
+    """(label, template): chains around the nesting limit (500) and far beyond; recursion around MAX_RECURSION
+    (150, i.e. 75 for constructs that cost two units) and far beyond; products of the two."""
     out = []
-    for n in depths:
-        out += [
-            "{{ " + "(" * n + "1" + ")" * n + " }}",
-            "{{ " + "[" * n + "1" + "]" * n + " }}",
-            "{{ " + "-" * n + "1 }}", "{{ " + "not " * n + "1 }}",
-            "{{ " + "1 if a else " * n + "2 }}",
-            "{{ " + "1 + (" * n + "1" + ")" * n + " }}",
-            "{{ " + "f(" * n + "1" + ")" * n + " }}",
-            "{{ 1" + "|abs" * n + " }}", "{{ x" + ".a" * n + " }}", "{{ x" + "[0]" * n + " }}",
-            "{{ " + "x[" * n + "0" + "]" * n + " }}",
-            "{{ " + "{'a':" * n + "1" + "}" * n + " }}",
-            "{{ 1" + " + 1" * n + " }}", "{{ 1" + " < 2" * min(n, 1000) + " }}", "{{ 'a'" + " ~ 'b'" * n + " }}",
-            "{{ 1" + " and 1" * n + " }}",
-            "{{ x" + "|default(x" * n + ")" * n + " }}",
-            "{{ x is " + "defined and x is " * min(n, 2000) + "defined }}",
-            "{% if a %}" * n + "x" + "{% endif %}" * n,
-            "{% if a %}x" + "{% elif a %}y" * n + "{% endif %}",
-            "{% for i in l %}" * n + "x" + "{% endfor %}" * n,
-            "{% with q=1 %}" * n + "x" + "{% endwith %}" * n,
-            "{% filter upper %}" * n + "x" + "{% endfilter %}" * n,
-            "{% set z %}" * n + "x" + "{% endset %}" * n,
-            "{% for " + "(" * n + "a" + ",)" * n + " in l %}{% endfor %}",
-            "{% macro m() %}" * min(n, 150) + "x" + "{% endmacro %}" * min(n, 150),
-            "{% call m() %}" * n + "x" + "{% endcall %}" * n,
-            "{% block b %}" + "{% if a %}" * n + "{% endif %}" * n + "{% endblock %}",
-            "{% raw %}" + "{{" * n + "{% endraw %}",
-            "{#" + "{#" * n + "#}", "{{" * n, "{%" * n, "{{ '" + "\\\\" * n + "' }}", "{{ " + "1," * n + " }}",
-        ]
+    chain_depths = [10, 100, 400, 497, 498, 499, 500, 501, 502, 1000, 2000, 20000] + ([100000] if thorough else [])
+    nest_depths = [10, 50, 72, 73, 74, 75, 76, 100, 147, 148, 149, 150, 151, 200, 1000, 20000] + ([100000] if thorough else [])
+    for name, g in CHAINS:
+        for n in chain_depths:
+            out.append(("chain:%s:%d" % (name, n), g(n)))
+    for name, g in NESTS:
+        for n in nest_depths:
+            out.append(("nest:%s:%d" % (name, n), g(n)))
+    # a chain at the bottom of / around / at every level of a recursion
+    for d in (10, 40, 70, 73):
+        for c in (100, 300, 420, 440, 460, 480, 495, 600):
+            out.append(("mix:call-chain-inside:%d:%d" % (d, c), "{{ " + "f(" * d + "x" + ".a" * c + ")" * d + " }}"))
+            out.append(("mix:call-chain-outside:%d:%d" % (d, c), "{{ " + "f(" * d + "1" + ")" * d + "|abs" * c + " }}"))
+            out.append(("mix:list-chain-inside:%d:%d" % (d, c), "{{ " + "[" * d + "a" + " + 1" * c + "]" * d + " }}"))
+            out.append(("mix:for-chain:%d:%d" % (d, c), "{% for i in l %}" * d + "{{ x" + "|abs" * c + " }}" + "{% endfor %}" * d))
+        for c in (2, 5, 7, 10, 50):
+            out.append(("mix:paren-chain-each-level:%d:%d" % (d, c), "{{ " + "(" * d + "1" + (")" + " + 1" * c) * d + " }}"))
+            out.append(("mix:call-chain-each-level:%d:%d" % (d, c), "{{ " + "f(" * d + "1" + (")" + "|abs" * c) * d + " }}"))
+            out.append(("mix:sub-chain-each-level:%d:%d" % (d, c), "{{ " + "x[" * d + "0" + ("]" + ".a" * c) * d + " }}"))
+    for d in (50, 100, 140, 148):
+        for e in (1, 10, 36, 37, 74):
+            out.append(("mix:stmt-expr:%d:%d" % (d, e), "{% for i in l %}" * d + "{{ " + "f(" * e + "1" + ")" * e + " }}" + "{% endfor %}" * d))
+            out.append(("mix:if-list:%d:%d" % (d, e), "{% if a %}" * d + "{{ " + "[" * e + "1" + "]" * e + " }}" + "{% endif %}" * d))
+            out.append(("mix:with-filterarg:%d:%d" % (d, e), "{% with q=1 %}" * d + "{{ x" + "|default(x" * e + ")" * e + " }}" + "{% endwith %}" * d))
+    # siblings must not add up: wide but shallow
+    out.append(("wide:list-of-chains", "{{ [" + ", ".join(["x" + ".a" * 300] * 200) + "]|length }}"))
+    out.append(("wide:sum-of-chains", "{{ " + " ~ ".join(["m" + "|upper" * 200] * 250) + " }}"))
+    out.append(("wide:args-of-chains", "{{ f(" + ", ".join(["x" + "[0]" * 400] * 50) + ") }}"))
     return out
 
 
@@ -168,77 +232,197 @@ def mutated_fixtures(repo, rng, n):
     return out
 
 
+# ---------------------------------------------------------------------------------------------
+# parallel runner (vlib.run_json is sequential): contiguous chunks, one child process per chunk (restarted
+# after the request it died on), results in request order
+# ---------------------------------------------------------------------------------------------
+def _run_chunk(cmd, reqs, env):
+    results = []
+    i, n = 0, len(reqs)
+    while i < n:
+        inp = "\n".join(json.dumps(r) for r in reqs[i:]) + "\n"
+        rc, o, e = sh(cmd, inp=inp, timeout=1800, env=env)
+        got = []
+        for l in [l for l in o.split("\n") if l.strip()][: n - i]:
+            try:
+                got.append(json.loads(l))
+            except Exception:
+                got.append({"garbled": l[:200]})
+        results.extend(got)
+        i += len(got)
+        if got and isinstance(got[-1], dict) and got[-1].get("hang"):
+            continue
+        if i < n:
+            e = e or ""
+            results.append({"crash": rc, "stderr": e[:300] + (" ... " + e[-300:] if len(e) > 300 else "")})
+            i += 1
+    return results
+
+
+def run_parallel(binname, reqs, rel, workers, chunk, memlimit=True):
+    env = dict(ENV)
+    env["MJVERIF_WATCHDOG_MS"] = str(WATCHDOG_MS)
+    cmd = ["bash", "-c", ("ulimit -v 8000000; " if memlimit else "") + "exec " + bin_path(binname, rel)]
+    chunks = [reqs[i:i + chunk] for i in range(0, len(reqs), chunk)]
+    with concurrent.futures.ThreadPoolExecutor(max_workers=workers) as ex:
+        parts = list(ex.map(lambda c: _run_chunk(cmd, c, env), chunks))
+    return [r for p in parts for r in p]
+
+
+def crash_kind(r):
+    if not isinstance(r, dict):
+        return "abort"
+    if "panic" in r:
+        return "panic"
+    if r.get("hang"):
+        return "hang"
+    err = r.get("stderr", "")
+    if "stack overflow" in err or "overflowed its stack" in err:
+        return "stack"
+    if "memory allocation of" in err:
+        return "alloc"
+    return "abort"
+
+
+def known_matches(entry, template, profile, kind):
+    m = entry.get("match", {})
+    if "regex" not in m or not re.search(m["regex"], template, re.S):
+        return False
+    if m.get("profile", "any") not in ("any", profile):
+        return False
+    kinds = m.get("kind", "any").split("|")
+    if "abort" in kinds:
+        kinds += ["stack", "alloc"]  # ways a process dies
+    return "any" in kinds or kind in kinds
+
+
+# ---------------------------------------------------------------------------------------------
+def stack_meter(chk):
+    """bytes of native stack at the limits (debug and release); informational, except that an accepted template
+    needing more than the 2 MiB budget is what the crash monitor reports as a stack overflow"""
+    shapes = []
+    for name, g in NESTS[:30]:
+        for n in (74, 149):
+            shapes.append(("nest:%s:%d" % (name, n), g(n)))
+    for name, g in CHAINS:
+        shapes.append(("chain:%s:%d" % (name, 498), g(498)))
+    out = {}
+    for rel in (False, True):
+        res = run_parallel("c01", [{"template": t, "ctx": CTX, "stack_kib": 16384} for _, t in shapes], rel, workers=14, chunk=4, memlimit=False)
+        worst = {}
+        for (label, _), r in zip(shapes, res):
+            if not isinstance(r, dict) or "parse" not in r:
+                continue
+            accepted = bool(r.get("load_ok"))
+            for phase in ("parse", "compile", "drop_ast", "load", "undeclared", "render", "drop_env"):
+                if phase in r and (accepted or phase == "parse"):
+                    if r[phase] > worst.get(phase, (0, ""))[0]:
+                        worst[phase] = (r[phase], label)
+        out["release" if rel else "debug"] = {k: {"bytes": v[0], "template": v[1]} for k, v in worst.items()}
+    return out, len(shapes) * 2
+
+
 def main():
     chk = Check("C01", "other")
     chk.cov["trusted_base"] = TRUSTED_COMMON + [
-        "tools/parser_graph.py (translator parser.rs -> GenParserGraph.v: functions by brace matching, calls of the form self.name( / Self::name(, guards = calls inside with_recursion_guard!(...)); recursion through any other syntax would escape it - the nesting generators are the safety net",
+        "tools/parser_graph.py (translator parser.rs -> GenParserGraph.v: functions by brace matching, calls of the form self.name( / Self::name(, guards = calls inside with_recursion_guard!(...), nesting loops = loop/while bodies that assign a new ast::Expr node to the variable they read (charged = the body calls self.nest())); recursion or nesting through any other syntax would escape it - the nesting generators are the safety net",
         "Print Assumptions: all C01 theorems closed under the global context"]
-    chk.assumptions = ["PARTIAL by nature: theorems cover parser recursion (bounded nesting), slice arithmetic/indexing (C09 model), scope/capture/operand stack underflow on accepted streams (C05 checker); native stack depth of other recursion (Value Display/Drop of deep data), allocation sizes, formatting.rs and third-party crates are only observed by the crash monitor"]
+    chk.assumptions = ["PARTIAL by nature: theorems cover parser recursion (bounded nesting of calls), the nesting accounting of the parser (height of every accepted expression bounded by the nesting limit, on a model of the accounting), range length arithmetic, slice arithmetic/indexing (C09 model), scope/capture/operand stack underflow on accepted streams (C05 checker); how many bytes of native stack one level costs, native stack depth of other recursion (Value Display/Drop of deep data built at run time), allocation sizes, formatting.rs and third-party crates are only observed by the crash monitor",
+                       "a hang (no answer within the 20 s watchdog) is reported like a crash: the monitor cannot tell an endless loop from slow work; time and memory proportional to a number written in the template are listed as known findings where the engine has no bound"]
     info = parser_graph.generate(REPO, os.path.join(COQ, "theories", "C01", "GenParserGraph.v"))
     proofs_ok = chk.run_proofs()
-    okc, clog = cargo_build(["prog"], release=False)
-    okr, clog2 = cargo_build(["prog"], release=True)
+    okc, clog = cargo_build(["prog", "c01"], release=False)
+    okr, clog2 = cargo_build(["prog", "c01"], release=True)
     if not (okc and okr):
         chk.violation("harness does not build against the current tree", {"theorem_or_correspondence": "build harness/src/bin/prog.rs", "log": (clog + clog2)[-1500:]}, True)
         chk.finish()
     # ---- templates ----
     if chk.replay:
         rp = json.load(open(chk.replay))["replay"]
-        groups = [("replay", [rp["template"]])]
+        groups = [("replay", [rp["template"]] if "template" in rp else [])]
+        if "regenerate" in rp:  # a template too long to store: label of the nesting generator
+            groups = [("replay", [t for l, t in nesting_templates(True) if l == rp["regenerate"]])]
     else:
-        groups = [("sweep", sweep_templates(REPO, chk.rng, chk.thorough)), ("nesting", nesting_templates(chk.thorough)),
+        inbox = []
+        for f in sorted(glob.glob(os.path.join(CACHE, "crash-inbox", "*"))):
+            try:
+                inbox.append(json.load(open(f))["template"] if f.endswith(".json") else open(f, encoding="utf8", errors="replace").read())
+            except Exception:
+                pass
+        nest = nesting_templates(chk.thorough)
+        groups = [("inbox", inbox), ("sweep", sweep_templates(REPO, chk.rng, chk.thorough)), ("nesting", [t for _, t in nest]),
                   ("mutated", mutated_fixtures(REPO, chk.rng, 20000 if chk.thorough else 3000))]
-    ctx = {"x": {"a": [1, 2]}, "a": False, "l": [1], "m": "s"}
+        labels = {t: l for l, t in nest}
     hist = collections.Counter()
     crashes = []
     total = 0
     distinct_ok = set()
-    for gname, tpls in groups:
-        reqs = [{"templates": {"main": t, "other.txt": "o"}, "main": "main", "ctx": ctx, "ops": ["render"], "debug": (i % 2 == 0)} for i, t in enumerate(tpls)]
-        for rel in (False, True):
-            env = dict(ENV)
-            env["MJVERIF_WATCHDOG_MS"] = "20000"
-            cmd = ["bash", "-c", "ulimit -v 8000000; exec " + bin_path("prog", rel)]
-            res = run_json(cmd, reqs, env=env)
-            total += len(res)
-            for t, r in zip(tpls, res):
-                rr = r.get("render", r) if isinstance(r, dict) else {}
-                if "ok" in rr:
-                    hist[gname + "_ok"] += 1
-                    if not rel:
-                        distinct_ok.add(t)
-                elif "err" in rr:
-                    hist[gname + "_err_" + ERR_NAMES.get(rr["err"], str(rr["err"]))] += 1
-                else:
-                    kind = "panic" if "panic" in r else ("hang" if r.get("hang") else "abort")
-                    crashes.append((gname, t, "release" if rel else "debug", kind, json.dumps(r)[:300]))
-    # known findings: identified by the exact template
+    flat = [(g, t) for g, tpls in groups for t in tpls]
+    # heavy requests (long templates) first so that the shards finish together
+    order = sorted(range(len(flat)), key=lambda i: -len(flat[i][1]))
+    reqs = [{"templates": {"main": flat[i][1], "other.txt": "o"}, "main": "main", "ctx": CTX, "ops": ["render"], "debug": (i % 2 == 0)} for i in order]
+    t_run = time.time()
+    for rel in (False, True):
+        res = run_parallel("prog", reqs, rel, workers=14, chunk=64)
+        total += len(res)
+        for i, r in zip(order, res):
+            gname, t = flat[i]
+            rr = r.get("render", r) if isinstance(r, dict) else {}
+            if "ok" in rr:
+                hist[gname + "_ok"] += 1
+                if not rel:
+                    distinct_ok.add(t)
+            elif "err" in rr:
+                hist[gname + "_err_" + ERR_NAMES.get(rr["err"], str(rr["err"]))] += 1
+            else:
+                crashes.append((gname, t, "release" if rel else "debug", crash_kind(r), json.dumps(r)[:700]))
+    chk.notes["monitor_wall_s"] = round(time.time() - t_run, 1)
+    meter = {}
+    if not chk.replay:
+        t_m = time.time()
+        meter, n_meter = stack_meter(chk)
+        total += n_meter
+        chk.notes["meter_wall_s"] = round(time.time() - t_m, 1)
+    if os.environ.get("C01_DUMP"):
+        with open(os.environ["C01_DUMP"], "w") as f:
+            for gname, t, prof, kind, detail in crashes:
+                f.write(json.dumps([gname, (labels.get(t) if not chk.replay else None) or t[:300], prof, kind, detail[:400]]) + "\n")
+    # known findings: regex on the template + profile + kind of crash
     remaining = []
     for gname, t, prof, kind, detail in crashes:
-        k = chk.match_known(lambda e: e["match"].get("template") == t)
+        k = chk.match_known(lambda e: known_matches(e, t, prof, kind))
         if k:
             chk.known_finding(k["id"], k["what"])
+            hist["known_" + k["id"] + "_" + prof] += 1
         else:
             remaining.append((gname, t, prof, kind, detail))
-    chk.cov["explanation"] = ("Partial verification. Proved in Coq (see theorems): parser call nesting is bounded (call graph of %d functions / %d call edges, %d guarded, regenerated from parser.rs and checked by the verified checker: max rank %d, limit %d), slices never panic, accepted instruction streams never underflow. "
-                              "Observed (exploration): %d child-process renders (boundary sweep of every built-in filter/test/function/operator x argument pools incl. 2^62..2^128-1 counts, nesting generators at depths 10..20000, mutated fixtures), debug+release, 2 MiB threads, every error formatted in all forms; crashes seen: %d (known: %d)."
-                              % (info["functions"], info["edges"], info["guarded_edges"], info["max_rank"], info["max_recursion"], total, len(crashes), len(crashes) - len(remaining)))
+    chk.cov["explanation"] = ("Partial verification. Proved in Coq (see theorems): parser call nesting is bounded (call graph of %d functions / %d call edges, %d guarded, regenerated from parser.rs and checked by the verified checker: max rank %d, limit %d); every one of the %d parser loops that nest what they parsed one level deeper per iteration is charged against the nesting limit %d (loop table regenerated from parser.rs), and on the model of that accounting the height of every accepted expression is at most the limit; range length arithmetic stays inside i128 and yields isize elements; slices never panic; accepted instruction streams never underflow. "
+                              "Observed (exploration): %d child-process renders (boundary sweep of every built-in filter/test/function/operator x argument pools incl. 2^62..2^128-1 counts, nesting generators: %d chain shapes and %d recursion shapes at depths 10..20000 around both limits plus products of the two, mutated fixtures), debug+release, 2 MiB threads, every error formatted in all forms; crashes seen: %d (known: %d). Stack meter (debug, bytes): %s."
+                              % (info["functions"], info["edges"], info["guarded_edges"], info["max_rank"], info["max_recursion"], len(info.get("loops", [])), info.get("max_nesting", 0),
+                                 total, len(CHAINS), len(NESTS), len(crashes), len(crashes) - len(remaining),
+                                 ", ".join("%s %d" % (k, v["bytes"]) for k, v in sorted(meter.get("debug", {}).items()))))
     chk.cov["evaluations"] = total
     chk.cov["distinct_nontrivial"] = len(distinct_ok)
     chk.cov["rule"] = "non-trivial = distinct template that loads and renders successfully (the rest end in an error value, which is also an allowed outcome); see explanation for the generators"
     chk.cov["samples"] = [g[1][len(g[1]) // 3][:200] for g in groups if g[1]]
     chk.cov["distribution"] = dict(hist)
-    chk.cov["parser_graph"] = {k: info[k] for k in ("functions", "edges", "guarded_edges", "max_rank", "max_recursion", "unguarded_cycles")}
+    chk.cov["parser_graph"] = {k: info[k] for k in ("functions", "edges", "guarded_edges", "max_rank", "max_recursion", "unguarded_cycles", "max_nesting", "loops", "uncharged_loops") if k in info}
+    chk.cov["stack_meter"] = meter
     seen = set()
     for gname, t, prof, kind, detail in remaining:
         key = (gname, kind, t[:40])
-        if key in seen or len(seen) >= 6:
+        if key in seen or len(seen) >= 8:
             continue
         seen.add(key)
-        chk.violation("host process crash: " + kind, {"template": t if len(t) < 3000 else t[:200] + "...<%d chars>..." % len(t) + t[-100:], "template_len": len(t), "profile": prof, "observed": detail, "generator": gname})
+        rp = {"template": t, "template_len": len(t), "profile": prof, "observed": detail, "generator": gname}
+        if len(t) > 20000 and not chk.replay and t in labels:
+            rp = {"regenerate": labels[t], "template_head": t[:200], "template_len": len(t), "profile": prof, "observed": detail, "generator": gname}
+        chk.violation("host process crash: " + kind, rp)
     if not chk.violations:
         if info["unguarded_cycles"]:
             chk.violation("the parser has a recursion cycle that does not pass the recursion guard", {"theorem_or_correspondence": "parser_graph_guarded", "cycles": info["unguarded_cycles"]}, True)
+        elif info.get("uncharged_loops"):
+            chk.violation("the parser has a loop that nests expressions without charging the nesting limit", {"theorem_or_correspondence": "parser_loops_charged", "loops": info["uncharged_loops"]}, True)
         elif not proofs_ok:
             chk.violation("proof obligations of C01 do not check", {"theorem_or_correspondence": chk.proof["problems"]}, True)
     chk.finish()
